@@ -597,6 +597,12 @@ fn check_type_relation<T: TypeLookup>(
                 receive: receive2,
             },
         ) => {
+            // Record the coinductive hypothesis here as well: a recursive function type re-enters
+            // this arm through its own `Cycle`, and without the assumption nothing stops the
+            // recursion. Retracted below if the check fails.
+            let mark = assumptions.len();
+            assumptions.push(key);
+
             let self_on_stack = self_stack.contains(&self_id);
             if !self_on_stack {
                 self_stack.push(self_id);
@@ -639,6 +645,9 @@ fn check_type_relation<T: TypeLookup>(
             }
             if !self_on_stack {
                 self_stack.pop();
+            }
+            if !result {
+                assumptions.truncate(mark);
             }
             result
         }
